@@ -824,6 +824,11 @@ func (r *Runner) cmd(ctx context.Context, cm syntax.Command) {
 			vr := r.lookupVar(name)
 			if as.Naked {
 				if valType == "-A" {
+					if local && !global && !r.localInFunc(name) {
+						// Like `local foo`, `local -A foo` for a name which is not yet
+						// local to this function shadows any outer variable.
+						vr = expand.Variable{Exported: vr.Exported, ReadOnly: vr.ReadOnly}
+					}
 					vr.Kind = expand.Associative
 				} else {
 					vr.Kind = expand.KeepValue
